@@ -21,6 +21,11 @@ func c06fPlan() []c04Spec {
 			// the local record is the best one: every responder is corrected
 			out = append(out, c04Spec{Client: cl, Op: op, Quorum: 0, Local: "valid", LocalSq: 9, Plan: "local-best",
 				Resps: []c04Resp{{Net: "wan", Kind: "valid", Seq: 7}, {Net: "wan", Kind: "norec"}, {Net: "wan", Kind: "invalid", Seq: 12}}})
+			// the same two with a recipient that never answers its corrective put: the others still get the value
+			out = append(out, c04Spec{Client: cl, Op: op, Quorum: 0, Local: "none", Plan: "mixed-hang", HangFix: true,
+				Resps: []c04Resp{{Net: "wan", Kind: "valid", Seq: 7}, {Net: "wan", Kind: "valid", Seq: 5}, {Net: "wan", Kind: "norec"}, {Net: "wan", Kind: "error"}, {Net: "wan", Kind: "valid", Seq: 4}}})
+			out = append(out, c04Spec{Client: cl, Op: op, Quorum: 0, Local: "valid", LocalSq: 9, Plan: "local-best-hang", HangFix: true,
+				Resps: []c04Resp{{Net: "wan", Kind: "valid", Seq: 7}, {Net: "wan", Kind: "norec"}, {Net: "wan", Kind: "invalid", Seq: 12}, {Net: "wan", Kind: "valid", Seq: 3}}})
 			// everybody holds the best record: nobody is corrected
 			out = append(out, c04Spec{Client: cl, Op: op, Quorum: 0, Local: "none", Plan: "all-best",
 				Resps: []c04Resp{{Net: "wan", Kind: "valid", Seq: 7}, {Net: "wan", Kind: "valid", Seq: 7}, {Net: "wan", Kind: "valid", Seq: 7}}})
@@ -55,6 +60,7 @@ func TestVerifC06F(t *testing.T) {
 			spec = c04GenSpec(r, i)
 			spec.Plan = ""
 			spec.Slow, spec.K = false, 0 // the recipients are judged against a table that holds every responder
+			spec.HangFix = r.Chance(40)
 			if spec.Op == "pk" {
 				spec.Op = []string{"search", "get"}[r.Intn(2)]
 				spec.Node = ""
@@ -100,6 +106,9 @@ func TestVerifC06F(t *testing.T) {
 		cs.Count("fixups-context-done", dead)
 		if len(run.obs.Fixups) > 0 {
 			cs.Count("with-fixups", 1)
+			if spec.HangFix {
+				cs.Count("with-a-hanging-recipient", 1)
+			}
 		}
 		sig := fmt.Sprintf("%s|%s|q=%d|l=%s|n=%d|fix=%d|dead=%d", spec.Client, spec.Op, spec.Quorum, spec.Local, len(run.obs.Arrivals), len(run.obs.Fixups), dead)
 		idx := cs.Add(term, map[string]any{"case": i, "seed": seed, "spec": spec, "obs": run.obs}, sig)
